@@ -258,7 +258,11 @@ class SpawnProcess(multiprocessing.context.SpawnProcess):
     @staticmethod
     def _finalize(logger_thread, q):
         q.put(None)
-        logger_thread.join()
+        # Do not wait forever: if the child was killed by a signal while it was
+        # writing a log record (or holding the queue's write lock), the logger
+        # thread never gets to see the end marker, and this finalizer, which the
+        # garbage collector may run in any thread, would hang that thread.
+        logger_thread.join(timeout=1)
 
     @staticmethod
     def handle_exception(exc):
